@@ -39,6 +39,25 @@ def segvFlush (fixed : Bool) (st : Mcount.St) : SegvOutcome :=
     let p := Mcount.recordTrace st.frames
     .flushed p.1 p.2
 
+/-! ### what a thread does before it crashes: any sequence of hook calls -/
+
+inductive HookOp where
+  | enter (k : Mcount.Kind) (addr now : Nat)   -- mcount_entry / __fentry__ / __cyg_profile_func_enter / plthook_entry
+  | leave (now : Nat)                          -- the matching exit hook of the innermost open call
+  | flush                                      -- record_trace_data on the top frame (fork / exec / exit wrappers …)
+  | forkChild                                  -- atfork_child_handler
+  deriving Repr
+
+def hookStep (cfg : Mcount.Cfg) (s : Mcount.St) : HookOp → Mcount.St
+  | .enter k addr now => (Mcount.entry cfg k s addr now).1
+  | .leave now => Mcount.exit cfg s now
+  | .flush => Mcount.flushTop s
+  | .forkChild => Mcount.forkChild s
+
+def runHooks (cfg : Mcount.Cfg) : Mcount.St → List HookOp → Mcount.St
+  | s, [] => s
+  | s, o :: os => runHooks cfg (hookStep cfg s o) os
+
 /-! ### the recorder's shutdown as one function -/
 
 /-- do `n` times: the action `pick s` proposes, as long as it is enabled -/
